@@ -3,6 +3,11 @@
 //! Usage: e57sim <PROP> [quick|thorough] [--seed N] [--workers N] [--replay FILE]
 //!        e57sim --child <PROP> --tier T --seed N --from A --to B   (internal)
 
+mod adapter;
+mod gen;
+mod history;
+mod model;
+mod program;
 mod props;
 mod refcodec;
 mod rng;
@@ -85,7 +90,10 @@ fn main() {
         std::process::exit(2)
     });
     let code = match prop.as_str() {
+        "C01" => dispatch(&props::c01::C01, &mode, &opts),
+        "C06" => dispatch(&props::c06::C06, &mode, &opts),
         "C11" => dispatch(&props::c11::C11, &mode, &opts),
+        "C16" => dispatch(&props::c16::C16, &mode, &opts),
         other => {
             eprintln!("unknown property {other}");
             2
